@@ -110,6 +110,17 @@ class ExcFlow:
         self.compute()
         return self.escapes.get(qualname, frozenset())
 
+    def _package_generators(self) -> list[str]:
+        gens = getattr(self, "_gens", None)
+        if gens is None:
+            gens = [
+                f.qualname
+                for f in self.prog.package_functions()
+                if not isinstance(f.node, ast.Lambda) and not f.is_async and f.is_generator and f.module.name == "aiohomekit.protocol"
+            ]
+            self._gens = gens
+        return gens
+
     def _noreturn(self, cfg: CFG, node: Node) -> bool:
         """A simple statement whose top-level call can only reach functions without a normal exit."""
         st = node.ast
@@ -286,14 +297,28 @@ class ExcFlow:
                 if g is not None and g.is_generator and meth in ("send", "__next__", "throw"):
                     out |= self._callee_escapes(prod)
                     out.add("StopIteration")
-            elif cal.startswith("?.") or cal.startswith("?local"):
+            elif cal.startswith("?.") or cal.startswith("?local") or cal.startswith("?param"):
                 meth = cal.split(".")[-1]
                 if meth in EXTERNAL_METHOD_RAISES:
                     out |= set(EXTERNAL_METHOD_RAISES[meth])
+
             else:
                 meth = cal.split(".")[-1]
                 if meth in EXTERNAL_METHOD_RAISES and "Ed25519PublicKey" in cal:
                     out |= set(EXTERNAL_METHOD_RAISES[meth])
+        # generator protocol on a generator handed in from outside (parameter): any protocol generator may be behind it
+        if (
+            isinstance(call.func, ast.Attribute)
+            and call.func.attr == "send"
+            and isinstance(call.func.value, ast.Name)
+            and len(call.args) == 1
+            and not call.keywords
+            and call.func.value.id in f.params
+            and not any(c in p.functions or c.startswith("<result-of>") for c in callees)
+        ):
+            out.add("StopIteration")
+            for g in self._package_generators():
+                out |= self._callee_escapes(g)
         # next(gen) / gen.send through a local variable holding a generator
         if isinstance(call.func, ast.Name) and call.func.id == "next" and call.args:
             a = call.args[0]
